@@ -209,6 +209,12 @@ func c04R4(c *Ctx) {
 		if !isReturn(r.I) {
 			return
 		}
+		// a return that refuses the input with an error (a second provision) decides nothing about the stop condition
+		if ret, ok := r.I.(*ssa.Return); ok {
+			if rs := retResults(ret); len(rs) > 0 && rs[len(rs)-1].Type().String() == "error" && !isNilConst(rs[len(rs)-1]) {
+				return
+			}
+		}
 		// reachable from entry without cancel?
 		p := c.findPath(fn, nil, isCancelCall, func(in ssa.Instruction) bool { return in == r.I })
 		if p == nil {
